@@ -2,6 +2,7 @@ import Orx.KSRun
 import Orx.KSLedger
 import Orx.KSFault
 import Orx.IW.Outs
+import Orx.IW.FullLedgerRun
 /-! # C08 Consumed elements are moved out or dropped exactly once -/
 namespace Orx.Props.C08
 open Orx Orx.KS
@@ -142,5 +143,50 @@ example : (∀ t, ∀ o ∈ progsW t, OwnProg o) ∧
 /-- **Finding D12 (open)**: `AtomicIter::get(0)` twice from safe code moves element 0 out twice. -/
 theorem C08_finding_get_twice :
     (run vec3 [0, 0] (init vec3 fun t => if t = 0 then [⟨0, .get 0⟩, ⟨0, .get 0⟩] else [])).mv = [0, 0] := by decide
+
+
+/-! ## The owning wrapper (`ConIterOfIter` over an iterator of owned values): the full machine, every schedule -/
+
+/-- **Moved out or destroyed exactly once — owning iterator, every history, every schedule.** `IWF.step` is the full thread
+machine of the wrapper that the driver runs against the real crate: ticket protocol, `fetch_n` accumulators, the reused
+`Vec<Option<T>>` of buffered iterators (with stale slots of partly consumed chunks), loop-owned buffers, chunk consumption
+in any way (`nth` included), drops, panicking closures, a panicking wrapped iterator. For every wrapped iterator `s` (fused
+or not, panicking or not), all programs of the threads `0..n-1`, every interleaving `σ` (ticket dispenser below `2^64`):
+once all threads have finished, after the owner's `Drop` or `into_seq_iter` (consumed to any extent) the multiset of
+elements produced by all calls of the wrapped `next()` equals the multiset of elements moved out to callers plus the
+multiset of elements destroyed by the machinery. -/
+theorem owning_iterator_exactly_once (s : IWF.ISrc) (hown : s.owning = true) (n : Nat) (progs : Nat → List SOp)
+    (σ : List Nat) (hσ : ∀ t ∈ σ, t < n) (hb : IWF.Below s σ (IWF.init progs))
+    (hfin : ∀ t, t < n → IWF.finished ((IWF.run s σ (IWF.init progs)).d t) = true) (op : OwnerOp) (p : Nat) :
+    (IWF.prod s (IWF.owner s n (IWF.run s σ (IWF.init progs)) op).1.core.P).count p =
+      (IWF.owner s n (IWF.run s σ (IWF.init progs)) op).1.mv.count p +
+        (IWF.owner s n (IWF.run s σ (IWF.init progs)) op).1.dr.count p :=
+  IWF.wrapper_exactly_once s hown n progs σ hσ hb hfin op p
+
+/-- … and at every moment of every schedule: produced = moved out + destroyed + held by the threads -/
+theorem owning_iterator_ledger_invariant (s : IWF.ISrc) (hown : s.owning = true) (n : Nat) (progs : Nat → List SOp)
+    (σ : List Nat) (hσ : ∀ t ∈ σ, t < n) (hb : IWF.Below s σ (IWF.init progs)) (p : Nat) :
+    (IWF.prod s (IWF.run s σ (IWF.init progs)).core.P).count p =
+      (IWF.run s σ (IWF.init progs)).mv.count p + (IWF.run s σ (IWF.init progs)).dr.count p +
+        ((List.range n).flatMap (IWF.held (IWF.run s σ (IWF.init progs)))).count p :=
+  IWF.wrapper_ledger_invariant s hown n progs σ hσ hb p
+
+def itS : IWF.ISrc := { script := [.some 7, .some 3, .some 9, .some 4, .none] }
+def itProgs : Nat → List SOp := fun t =>
+  if t = 0 then [⟨0, .bufnew 2⟩, ⟨0, .bufnext (.first 1)⟩, ⟨0, .bufnext (.first 0)⟩, ⟨0, .next⟩]
+  else if t = 1 then [⟨0, .chunk 2 (.nth 0)⟩] else []
+def itSched : List Nat := List.replicate 40 0 ++ List.replicate 30 1 ++ List.replicate 30 0
+
+/-- the hypotheses are satisfiable by a non-trivial history: a buffered iterator whose first chunk (7, 3) is partly
+consumed (3 stays in its slot), whose second pull overwrites slot 0 with 9 (… and the one-shot chunk of the other thread, the
+stale 3 and the rest are destroyed): both threads finish, the counters stay small, and the ledger is what it says. -/
+example : IWF.Below itS itSched (IWF.init itProgs) ∧
+    (∀ t, t < 2 → IWF.finished ((IWF.run itS itSched (IWF.init itProgs)).d t) = true) ∧
+    (IWF.owner itS 2 (IWF.run itS itSched (IWF.init itProgs)) .drop).1.mv.length +
+      (IWF.owner itS 2 (IWF.run itS itSched (IWF.init itProgs)) .drop).1.dr.length = 4 := by
+  refine ⟨by decide +kernel, ?_, by decide +kernel⟩
+  intro t ht
+  have : t = 0 ∨ t = 1 := by omega
+  rcases this with rfl | rfl <;> decide +kernel
 
 end Orx.Props.C08
